@@ -13,10 +13,11 @@
 (*                !running && every peer was idle && work is pending       *)
 (*   Answer       case packet := <-deliveryCh: deliver, peer idle again    *)
 (*                unless the delivery was stale                            *)
-(*   Timeout      expire(): the request goes back, the peer is dropped     *)
+(*   Timeout      expire(): the request goes back; the peer is dropped, or *)
+(*                (request of more than two items) marked idle again       *)
 (*   Drain        the consumer takes results (processFullSyncContent)      *)
-(* Honest peers (constant Honest) answer every request completely and never*)
-(* time out.                                                               *)
+(* Honest peers (constant Honest) answer every request completely; they may*)
+(* be slow on a large request (time-out without being dropped).            *)
 (***************************************************************************)
 EXTENDS DlQueue
 
@@ -81,12 +82,17 @@ Answer(p, v) ==
    /\ DeliverCore(p, v[2])
    /\ UNCHANGED <<head, acc, offset, broken, delivered, old, reg, fin, out>>
 
+\* expire(): the request goes back to the queue.  A request of more than two items that times out does not get the peer
+\* dropped: it is marked idle again (setIdle(peer, 0)) -- also an honest peer may be slow like that; smaller requests
+\* time out only for peers that are not honest, and those are dropped.
 Timeout(p) ==
-   /\ Running /\ p \in reg \ Honest /\ pend[p] # <<>>
+   /\ Running /\ p \in reg /\ pend[p] # <<>>
+   /\ (p \in Honest => Len(pend[p]) > 2)
    /\ Tick([op |-> "Timeout", p |-> p])
    /\ Charge
    /\ queue' = PushAll(queue, pend[p]) /\ pend' = [pend EXCEPT ![p] = <<>>]
-   /\ reg' = reg \ {p} /\ busy' = busy \ {p}
+   /\ reg' = IF Len(pend[p]) > 2 THEN reg ELSE reg \ {p}
+   /\ busy' = busy \ {p}
    /\ UNCHANGED <<head, acc, pool, done, slot, offset, lacks, broken, delivered, old, fin, out>>
 
 Drain == /\ Processable(1) > 0 /\ Results /\ Frame        \* the consumer goes on after the loop returned
